@@ -154,6 +154,9 @@ structure StA where
   k : Nat
   AP : AtlasParams Float
   M : AtlasM Float Vec := {}
+  /-- header `tbfix=1`: the TangentBundle traversal under test has the F175 repair (validates the state it
+  is about to store); `tbfix=0`: the traversal before the repair (`tbGeodesicOld`) -/
+  tbFixed : Bool := true
 
 def initA (ts : List String) : Option StA := do
   let b ← init ts
@@ -162,7 +165,7 @@ def initA (ts : List String) : Option StA := do
     let k := ((kvGet rest "k").bind String.toNat?).getD 0
     let g (key : String) (d : Float) : Float := ((kvGet rest key).bind parseFloatBits?).getD d
     let maxc := ((kvGet rest "maxc").bind String.toNat?).getD 200
-    some ⟨b, k, ⟨b.P.delta, b.P.lambda, g "eps" 0.05, g "cosa" 0.0, g "backoff" 0.75, maxc⟩, {}⟩
+    some ⟨b, k, ⟨b.P.delta, b.P.lambda, g "eps" 0.05, g "cosa" 0.0, g "backoff" 0.75, maxc⟩, {}, (kvGet rest "tbfix") != some "0"⟩
   | [] => none
 
 partial def parseAEvs (n k : Nat) (ts : List String) (acc : Array AEv) : Option (List AEv) :=
@@ -252,7 +255,8 @@ def stepA (st : StA) (ts : List String) : StA × String :=
       let (a, rest) ← takeVec n rest
       let (b, rest) ← takeVec n rest
       let evs ← parseAEvs n st.k rest #[]
-      pure (showGeo (tbGeodesic A Am O st.AP Float.isFinite fuel ⟨evs, false⟩ a b i))
+      if st.tbFixed then pure (showGeo (tbGeodesic A Am O st.AP Float.isFinite fuel ⟨evs, false⟩ a b i))
+      else pure (showGeo (tbGeodesicOld A Am O st.AP Float.isFinite fuel ⟨evs, false⟩ a b i))
     | "tinterp" :: rest => do
       let (a, rest) ← takeVec n rest
       let (b, rest) ← takeVec n rest
@@ -260,7 +264,8 @@ def stepA (st : StA) (ts : List String) : StA × String :=
       | t :: rest => do
         let t ← parseFloatBits? t
         let evs ← parseAEvs n st.k rest #[]
-        match tbInterpolate A Am O st.AP Float.isFinite fuel ⟨evs, false⟩ a b t with
+        let geo : Geo ASt Vec := if st.tbFixed then tbGeo A Am O st.AP Float.isFinite fuel else tbGeoOld A Am O st.AP Float.isFinite fuel
+        match tbInterpolateG A Am O geo ⟨evs, false⟩ a b t with
         | some (x, s) => pure ("r= " ++ showVec x ++ tailA s)
         | none => pure "r= none"
       | [] => none
